@@ -495,9 +495,38 @@ pub fn c12_check_root(root: &Root, h: &ZobristHasher, budget: u64, sample: bool,
                 }
             }
         }
-        let r = run_search(&root.board, &root.table, None, 3);
+        // the reference first: the engine is only asked for the depths the reference can afford
+        // (a root whose capture search explodes would otherwise keep the engine busy for minutes)
+        let mut refs: Vec<(u8, i32, Vec<(Mv, i32)>, u64)> = Vec::new();
+        for d in 1..=3u8 {
+            let mut rs = RefSearch::new(h, budget);
+            let res = par::catch(|| rs.root(&root.board, d, &root.table));
+            match res {
+                Ok((want, per_move)) => {
+                    if rs.over_budget {
+                        acc.count("skipped_budget", (4 - d) as u64);
+                        break;
+                    }
+                    refs.push((d, want, per_move, rs.nodes));
+                }
+                Err(e) => {
+                    acc.inconclusive.push(format!("reference search panicked on {}: {}", root.hist.end.to_fen(), e));
+                    break;
+                }
+            }
+        }
+        let dmax = match refs.last() {
+            Some(x) => x.0,
+            None => return,
+        };
+        let guard = budget.saturating_mul(16);
+        let r = run_search(&root.board, &root.table, Some(guard), dmax);
         if let Some(p) = &r.panic {
             acc.violation(format!("C12|panic|{}", root.hist.command()), format!("search to depth 3 panicked on {}: {}", root.hist.end.to_fen(), p), root_case("C12", root, 3, None));
+            return;
+        }
+        if r.report.queries >= guard {
+            acc.count("skipped_engine_budget", 1);
             return;
         }
         // last line and last send of each iteration
@@ -517,22 +546,9 @@ pub fn c12_check_root(root: &Root, h: &ZobristHasher, budget: u64, sample: bool,
                 _ => {}
             }
         }
-        for d in 1..=3u8 {
-            let mut rs = RefSearch::new(h, budget);
-            let res = par::catch(|| rs.root(&root.board, d, &root.table));
-            let (want, per_move) = match res {
-                Ok(x) => x,
-                Err(e) => {
-                    acc.inconclusive.push(format!("reference search panicked on {}: {}", root.hist.end.to_fen(), e));
-                    continue;
-                }
-            };
-            if rs.over_budget {
-                acc.count("skipped_budget", 1);
-                continue;
-            }
+        for (d, want, per_move, nodes) in refs {
             acc.evaluations += 1;
-            acc.count("reference_nodes", rs.nodes);
+            acc.count("reference_nodes", nodes);
             acc.distinct.insert(hash64(&format!("{}|{}", root.hist.command(), d)));
             acc.feature(if root.hist.moves.is_empty() { "empty_history" } else { "with_history" });
             if want.abs() >= MATE - 15 {
